@@ -142,6 +142,8 @@ STD_RULES = [
     [r'\b(\w+)\.empty\(\)', r'(\1_size == 0)', '*'],
     [r'\b(\w+)\.back\(\)', r'\1[\1_size - 1]', '*'],
     [r'\b(\w+)\.front\(\)', r'\1[0]', '*'],
+    # rule 6: structured binding of a std::pair<bool, long long> returned by a call
+    [r'\bauto \[(\w+), (\w+)\] = ((?:valueOn\w+|evaluatePlacement)\([^;]*\));', r'Pair_bool_longlong verif_p_\1 = \3; bool \1 = verif_p_\1.first; long long \2 = verif_p_\1.second;', '*'],
     # rule 9: container operations on lowered vectors (models in prelude/containers_abs.h)
     [r'\b(\w+)\.reserve\([^;]*\);', '', '*'],
     [r'\b(\w+)\.insert\(\s*\1\.end\(\),\s*(\w+)\.begin\(\),\s*\2\.end\(\)\)', r'VEC_APPEND(\1, \2)', '*'],
@@ -157,7 +159,7 @@ STD_RULES = [
 
 # rule 5: range-for over a lowered vector (the vector must not be modified in the loop;
 # checked by range_for_guard below)
-RANGE_FOR = re.compile(r'\bfor\s*\(\s*(?:const\s+)?(\w+(?:\s+\w+)?)\s*&?\s*(\w+)\s*:\s*(\w+)\s*\)\s*\{')
+RANGE_FOR = re.compile(r'\bfor\s*\(\s*(?:const\s+)?(\w+(?:\s+\w+)?)(?:\s*&\s*|\s+)(\w+)\s*:\s*(\w+)\s*\)\s*\{')
 
 
 def lower_range_for(text, log):
